@@ -28,6 +28,8 @@ def tier_n(tier):
 
 
 # per-operation node bound of the pre-state: (quick, thorough)
+# operations cheap enough for larger pre-states: (quick, thorough) node bound
+BIG = {"remove": (4, 5), "remove_children": (4, 5), "clear": (4, 5)}
 CAPS = {
     "copy_node": (2, 3),
     "copy_to": (2, 3),
@@ -52,7 +54,7 @@ def topo_orders(shape):
 
 
 def op_cap(op, tier):
-    q, t = CAPS.get(op, (3, 4))
+    q, t = BIG.get(op) or CAPS.get(op, (3, 4))
     return q if tier == "quick" else t
 
 
